@@ -211,6 +211,10 @@ class Builder:
                     raise JaqalError(
                         f"Cannot map {src_name} to {name}, {src_name} does not exist"
                     )
+                if not isinstance(src, Register):
+                    raise JaqalError(
+                        f"Cannot map {src_name} to {name}, {src_name} is not a register"
+                    )
         if len(args) == 2:
             # Mapping a whole register or alias onto this alias
             name, src_name = args
@@ -363,7 +367,9 @@ class Builder:
         identifier, index = sexpression.args
         built_identifier = self.build(identifier, context, gate_context)
         built_index = as_integer(self.build(index, context, gate_context))
-        # If built_identifier is the wrong type it will raise its own JaqalError, or at least it should.
+        if not isinstance(built_identifier, (Register, Parameter)):
+            # e.g. a let constant or a single-qubit alias
+            raise JaqalError(f"Cannot index {identifier}: it is not a register")
         return built_identifier[built_index]
 
     def build_usepulses(self, sexpression, context, gate_context):
